@@ -461,6 +461,15 @@ pub struct Conn {
     buf: Vec<u8>,
 }
 
+/// configuration of the OTHER clients' connections whose pipelines are placed between EXEC's store
+/// accesses: the batch collectors off (`min_pipeline_buffer` out of reach).  Since fix de38a13 the
+/// collectors are alive: a run of SET / GET frames at the head of a read would be taken as ONE batch
+/// and served in one round, which is a different schedule from the one the model is told (one store
+/// access per connection per round).  The per-command fast path stays on — it IS one access.
+pub fn lockstep_cfg() -> ConnectionConfig {
+    ConnectionConfig { min_pipeline_buffer: usize::MAX / 2, ..ConnectionConfig::default() }
+}
+
 impl Conn {
     pub fn open(state: &ShardedActorState) -> Conn {
         Conn::open_cfg(state, ConnectionConfig::default())
@@ -748,7 +757,7 @@ impl World {
         World {
             shards,
             c1: Conn::open_cfg(&st, cfg.clone()),
-            c2: Conn::open(&st),
+            c2: Conn::open_cfg(&st, lockstep_cfg()),
             c3: None,
             tw: Conn::open(&twin),
             st,
@@ -1138,7 +1147,7 @@ impl World {
         // the modelled client, the second connection, the third)
         let two = sched.iter().any(|s| s.len() > 1);
         if two && self.c3.is_none() {
-            self.c3 = Some(Conn::open(&self.st));
+            self.c3 = Some(Conn::open_cfg(&self.st, lockstep_cfg()));
             tokio::task::yield_now().await;
             tokio::task::yield_now().await;
         }
